@@ -66,6 +66,7 @@ type storeSys struct {
 	snapR map[string]any // held snapshot handed out by the real GetAll (nil: none)
 	snapM map[string]any // what that snapshot must contain
 	prob  []string
+	dead  bool // a store operation panicked
 }
 
 func newStoreSys() *storeSys {
@@ -84,7 +85,22 @@ func (s *storeSys) fail(format string, a ...any) {
 	s.prob = append(s.prob, fmt.Sprintf(format, a...))
 }
 
+// apply performs o on both sides; a panic inside the store is a complaint (the plain map would
+// not have panicked), after which this instance is no longer used.
 func (s *storeSys) apply(o stOp) {
+	defer func() {
+		if r := recover(); r != nil {
+			s.fail("%s panicked: %v (a plain map does not)", o.String(), r)
+			s.dead = true
+		}
+	}()
+	if s.dead {
+		return
+	}
+	s.applyRaw(o)
+}
+
+func (s *storeSys) applyRaw(o stOp) {
 	switch o.kind {
 	case "set":
 		s.real.Set(o.k, o.v)
@@ -150,6 +166,15 @@ func (s *storeSys) apply(o stOp) {
 
 // observe compares every observer with the reference map and re-checks the held snapshot.
 func (s *storeSys) observe(after string) {
+	if s.dead {
+		return
+	}
+	defer func() {
+		if r := recover(); r != nil {
+			s.fail("after %s: an observer panicked: %v", after, r)
+			s.dead = true
+		}
+	}()
 	for _, k := range append(append([]string(nil), stKeys...), "__poison__", "__overwritten__", "__appended__") {
 		v, ok := s.real.Get(k)
 		mv, mok := s.model[k]
@@ -445,6 +470,15 @@ func genC14(tier string) []Scenario {
 
 // observeLite: Len / Keys / GetAll / Has-of-every-model-key against the map (for big stores).
 func (s *storeSys) observeLite(after string) {
+	if s.dead {
+		return
+	}
+	defer func() {
+		if r := recover(); r != nil {
+			s.fail("after %s: an observer panicked: %v", after, r)
+			s.dead = true
+		}
+	}()
 	if n := s.real.Len(); n != len(s.model) {
 		s.fail("after %s: Len() = %d, map has %d", after, n, len(s.model))
 	}
